@@ -76,6 +76,11 @@ def _cases(tier, rng):
         if rng.random() < 0.4:
             term = wrap_in(rng, term)
         yield {'kind': 'mux', 'term': term, 'items': items}
+    # keys that are a fresh NaN for some items and None for others: None and NaN are different keys, every fresh NaN is a key of its own
+    for _ in range({'quick': 20, 'thorough': 150, 'search': 12}[tier]):
+        inner = rng.choice([[['to_list']], [['count', False]], [['last']]])
+        yield {'kind': 'mux', 'term': [['group_by', ['nan_none_mod', 3], inner]], 'items': [rng.randrange(9) for _ in range(rng.choice([3, 5, 9]))],
+               'no_model': True}
     # a key mapper with a state of its own (round-robin assignment): it is called once per item, so item j goes to group j % k
     for _ in range({'quick': 30, 'thorough': 200, 'search': 20}[tier]):
         k = rng.choice([2, 3, 5])
